@@ -221,6 +221,35 @@ class CreateCheck:
                                "P": P, "shape": sh, "alpha": alpha,
                                "first": g["first"], "seed": seed,
                                "listing": "native", "cli": True})
+        # scale and count: many files in one directory, many directories, deep
+        # nesting, long names; sizes = a pattern repeated along the file list,
+        # once per starting offset
+        for sh in ("W40", "N16", "L250", "W300") + (() if quick
+                                                     else ("W1100",)):
+            n = world.nfiles(sh)
+            for P in ((4,) if quick else (2, 4, 8)):
+                pat = list(range(0, 2 * P + 2))
+                vecs = e1.cyclic_vectors(n, pat) + \
+                    e1.cyclic_vectors(n, pat, offsets=[0, 3], stride=3)
+                if sh in ("W300", "W1100"):
+                    vecs = vecs[:3] if quick else vecs
+                for i in range(0, len(vecs), 2):
+                    gs.append({"kind": "vec", "scale": "S", "B": 2, "P": P,
+                               "shape": sh, "sizes_list": vecs[i:i + 2],
+                               "seed": seed, "listing": "native"})
+        for sh in ("W40", "N16", "L250"):
+            P = 32768
+            pat = [0, 1, REAL_B, REAL_B + 1, P - 1, P, P + 1, 2 * P + 1]
+            vecs = e1.cyclic_vectors(world.nfiles(sh), pat,
+                                     offsets=[0, 5] if quick else None)
+            for v in vecs:
+                gs.append({"kind": "vec", "scale": "R", "B": REAL_B, "P": P,
+                           "shape": sh, "sizes_list": [v], "seed": seed,
+                           "listing": "native", "cli": True})
+        gs.append({"kind": "vec", "scale": "R", "B": REAL_B, "P": 16384,
+                   "shape": "W1100", "seed": seed, "listing": "native",
+                   "sizes_list": e1.cyclic_vectors(
+                       1100, [0, 1, 7, 16384, 16385, 5], offsets=[0])})
         # environment faults while creating (E2, one fault per execution): a
         # payload file that cannot be opened, a read that fails, a progress
         # line that cannot be written
@@ -479,6 +508,8 @@ class CreateCheck:
         seed = g["seed"]
         if g["kind"] == "dense":
             size_iter = ([s] for s in g["sizes"])
+        elif g["kind"] == "vec":
+            size_iter = iter(g["sizes_list"])
         else:
             size_iter = e1.iter_sizes(g["shape"], g["alpha"], g["first"])
         confirmed = {}
